@@ -403,7 +403,18 @@ def _run(case):
                 k = keys[i % len(keys)]
                 if k not in chosen:
                     chosen.append(k)
-            new = mol.subgraph(chosen)
+            # the selection is handed over as a list without repeats, a list with repeats, a list with repeats that is exactly
+            # as long as the molecule has atoms, or an iterator
+            how = sum(op['pick']) % 4
+            if how == 1:
+                selection = [keys[i % len(keys)] for i in op['pick']]
+            elif how == 2:
+                selection = list(chosen) + [chosen[i % len(chosen)] for i in range(max(0, len(keys) - len(chosen)))]
+            elif how == 3:
+                selection = iter(list(chosen))
+            else:
+                selection = list(chosen)
+            new = mol.subgraph(selection)
             sub = Model(model.nrexcl)
             cs = set(chosen)
             for k in chosen:
